@@ -65,6 +65,13 @@ static void xv_init_queue(uint64_t tok) { if (tok) g_queue_inits++; }
 #define XV_INIT__queue(self, ...) xv_init_queue(__VA_ARGS__ + 0)      /* _queue() (empty unique_ptr) or _queue(new entry[n]()) / _queue.reset(new entry[n]()) */
 #define XENIUM_VERIF_POINT(id) ((void)0)                               /* replay hook of instrumented trees: no effect */
 
+/* ---- pop(): std::optional<value_type> is a {present, value} pair; traits::get(raw) wraps the raw pointer into a value_type (counted) ---- */
+struct xv_opt { _Bool present; value_type v; };
+#define XV_NULLOPT ((struct xv_opt){0, 0})
+unsigned g_got;
+static value_type TR_get(raw_value_type raw) { g_got++; return raw; }
+static value_type kbq_opt_success(marked_value* v_p);
+static struct xv_opt kbq_opt_empty(void);
 /* ---- do_pop is instantiated with the two lambdas of try_pop ---- */
 static _Bool kbq_pop_success(value_type* result_p, marked_value* v_p);
 static _Bool kbq_pop_empty(void);
@@ -583,3 +590,18 @@ void h_slot_word(void) {
   XV_OBL("kbq.slot.any_pointer", XV_SLOT_MARK_BITS <= XV_MAX_UPPER_MARK_BITS);
   XV_CANARY("slot_word.reached");
 }
+
+/* pop(): the functors it passes to do_pop (extracted text) against the ones of try_pop; XV_POP_OPTIONAL_TARGET is the callee named in pop()'s body */
+#define do_pop 7701    /* only for the comparison below: the name of the callee in pop()'s body */
+void h_pop_optional(void) {
+  marked_value v = nondet_u64(), v0 = v; value_type res = nondet_uptr();
+  g_got = 0; g_stored = 0;
+  XV_OBL("kbq.pop_optional.same_as_try_pop", XV_POP_OPTIONAL_TARGET == 7701);      /* pop() forwards to do_pop */
+  value_type a = kbq_opt_success(&v);
+  _Bool ok = kbq_pop_success(&res, &v);
+  XV_OBL("kbq.pop_optional.same_as_try_pop", ok && a == res && a == MV_get(v0) && v == v0 && g_got == 1 && g_stored == 1);
+  struct xv_opt e = kbq_opt_empty();
+  XV_OBL("kbq.pop_optional.same_as_try_pop", !e.present && !kbq_pop_empty());
+  XV_CANARY("pop_optional.reached");
+}
+#undef do_pop
